@@ -74,9 +74,27 @@ const (
 	// numbers that only become table entries when some bit is ignored: the x32 marker bit on top of a valid number
 	shLoadX32AX    = shCount + 3 // MOVL $0x40000001, AX
 	shLoadX32Stack = shCount + 4 // MOVQ $0x40000027, 0(SP)
+	// one call shape and one function-marker shape per entry point the parser treats as a syscall wrapper
+	shCallW0     = shCount + 5   // 4-field CALL <wrapper i>, i = 0..len(c16WrapperSyms)-1
+	shFuncW0     = shCallW0 + 12 // TEXT <wrapper i> /src/asm.s
+	shListingEnd = shFuncW0 + 12
 )
 
+// c16WrapperSyms: the twelve entry points, with the package path a real listing shows.
+var c16WrapperSyms = []string{"syscall.Syscall(SB)", "syscall.Syscall6(SB)", "syscall.rawVforkSyscall(SB)", "syscall.RawSyscall(SB)", "syscall.RawSyscall6(SB)",
+	"golang.org/x/sys/unix.RawSyscall(SB)", "golang.org/x/sys/unix.RawSyscall6(SB)", "golang.org/x/sys/unix.RawSyscallNoError(SB)", "golang.org/x/sys/unix.Syscall(SB)",
+	"golang.org/x/sys/unix.Syscall6(SB)", "golang.org/x/sys/unix.Syscall9(SB)", "golang.org/x/sys/unix.SyscallNoError(SB)"}
+
 var shapeNames = []string{"TEXT f", "TEXT syscall.Syscall", "TEXT_", "TEXT(bare)", "TEXT generic", "RAW", "RAW-other", "RAW(bare)", "MOV $0x3b,AX", "MOV $1,BP", "MOV $1,0(SP)", "MOV $-1,AX", "MOV $zz,AX", "MOV $999999,AX", "XORL AX,AX", "CALL syscall.Syscall", "CALL(bare)", "NOPL", "(empty)", "(70000 bytes)", "SYSENTER", "CALL unix.RawSyscallNoError", "CALL syscall.rawVforkSyscall", "MOV $0x40000001,AX", "MOV $0x40000027,0(SP)"}
+
+func init() {
+	for _, w := range c16WrapperSyms {
+		shapeNames = append(shapeNames, "CALL "+w)
+	}
+	for _, w := range c16WrapperSyms {
+		shapeNames = append(shapeNames, "TEXT "+w)
+	}
+}
 
 func rawInstr(i386 bool) string {
 	if i386 {
@@ -139,6 +157,12 @@ func renderLine(sh, n int, i386 bool) string {
 	case shLoadX32Stack:
 		return ins("MOVQ $0x40000027, 0(SP)")
 	}
+	if sh >= shCallW0 && sh < shCallW0+12 {
+		return ins("CALL " + c16WrapperSyms[sh-shCallW0])
+	}
+	if sh >= shFuncW0 && sh < shFuncW0+12 {
+		return "TEXT " + c16WrapperSyms[sh-shFuncW0] + " /src/asm.s"
+	}
 	return ""
 }
 
@@ -175,11 +199,22 @@ func modelExtract(shapes []int, i386 bool, names map[int]string) (sites []modelS
 			window = window[:0]
 			continue
 		}
+		if sh >= shFuncW0 && sh < shFuncW0+12 {
+			function = c16WrapperSyms[sh-shFuncW0] + " /src/asm.s"
+			window = window[:0]
+			continue
+		}
 		window = append(window, n)
 		isRaw := sh == shRaw || sh == shRawBare || (sh == shRaw2 && i386)
 		// on x86_64 the i386 raw instruction "INT $0x80" is neutral; on i386 "SYSCALL" is neutral
-		isCall := sh == shCall || sh == shCallBare || sh == shCall2 || sh == shCall3
-		inWrapper := strings.HasPrefix(function, "syscall.Syscall(SB)")
+		isCall := sh == shCall || sh == shCallBare || sh == shCall2 || sh == shCall3 || (sh >= shCallW0 && sh < shCallW0+12)
+		inWrapper := false
+		for _, w := range c16WrapperSyms {
+			// the parser looks for the unqualified tail ("unix.Syscall9(SB)")
+			if strings.Contains(function, w[strings.LastIndex(w[:strings.Index(w, "(")], "/")+1:]) {
+				inWrapper = true
+			}
+		}
 		loc := fmt.Sprintf("f.go:%d", n)
 		if sh == shRawBare {
 			loc = strings.Fields(rawInstr(i386))[0]
@@ -473,7 +508,7 @@ func checkC16(tier, replay string) int {
 	ctx.Cov["read_fault_runs"] = faults
 	ctx.Cov["max_lines"] = maxLines
 	ctx.Cov["long_function_sweep_max"] = c16LongFunctions
-	ctx.Cov["rule"] = fmt.Sprintf("all texts of <= %d lines over a %d-shape line alphabet (5 kinds of function marker incl. 'TEXT ', bare 'TEXT' and a generic symbol containing blanks, raw syscall instruction with and without location fields, the other architecture's raw instruction, number loads into AX/BP/stack, negative/unparsable/unknown numbers, the XOR idiom, calls of syscall.Syscall with and without location fields, neutral, empty and a 70000-byte line) for both parsers, with and without trailing newline, parsed by the real ExtractSyscalls under recover and compared with an independent site-model parser (number, name, caller, location), with the oracle tables, for monotonicity under appended functions and for an error whenever the text cannot be read to the end; plus the real `go tool objdump` output of a sample Go program built for amd64 and 386 (whole, and cut at function boundaries) compared with a text-level site model written without regular expressions, generated multi-function listings (also with numbers carrying the x32 marker bit 0x40000000 on top of a valid number), a size sweep (load and site n neutral instructions apart for every n up to the bound in long_function_sweep_max, alone and followed by another function) and a read error injected (strace) at every read call of 3 listings; non-trivial = parses that report at least one syscall", maxLines, shCount)
+	ctx.Cov["rule"] = fmt.Sprintf("all texts of <= %d lines over a %d-shape line alphabet (5 kinds of function marker incl. 'TEXT ', bare 'TEXT' and a generic symbol containing blanks, raw syscall instruction with and without location fields, the other architecture's raw instruction, number loads into AX/BP/stack, negative/unparsable/unknown numbers, the XOR idiom, calls of syscall.Syscall with and without location fields, neutral, empty and a 70000-byte line) for both parsers, with and without trailing newline, parsed by the real ExtractSyscalls under recover and compared with an independent site-model parser (number, name, caller, location), with the oracle tables, for monotonicity under appended functions and for an error whenever the text cannot be read to the end; plus the real `go tool objdump` output of a sample Go program built for amd64 and 386 (whole, and cut at function boundaries) compared with a text-level site model written without regular expressions, generated multi-function listings (all twelve wrapper entry points as callees and as containing functions; also with numbers carrying the x32 marker bit 0x40000000 on top of a valid number), a size sweep (load and site n neutral instructions apart for every n up to the bound in long_function_sweep_max, alone and followed by another function) and a read error injected (strace) at every read call of 3 listings; non-trivial = parses that report at least one syscall", maxLines, shCount)
 	ctx.Assumptions = []string{"site model: the number is taken from the nearest preceding number-loading instruction of the same function after the previous detected site; raw sites inside syscall.Syscall wrappers are not sites", "strace fault injection (-e inject=read:error=EIO:when=N) realises read failures"}
 	ctx.Sample(map[string]any{"text": []string{"TEXT main.f0(SB) /src/f.go", "  f.go:1\t0x401001\t0f05\tMOVQ $0x3b, AX", "TEXT main.f2(SB) /src/f.go", "  f.go:3\t0x401003\t0f05\tSYSCALL"}, "expected": "no syscall: the load belongs to another function"})
 	return ctx.Finish()
@@ -516,6 +551,15 @@ func c16Listings(ctx *evid.Ctx, check checkTextAdapter, tier string) {
 			jobs = append(jobs, t)
 			t2 := append(append([]int{}, t...), shFuncSys, shLoadAX, shRaw, shFunc, shLoadStack, shCall)
 			jobs = append(jobs, t2)
+
+		}
+	}
+	// every one of the twelve wrapper entry points: as the callee of a call site (after every kind of load, alone and
+	// followed/preceded by another site), and as the function that contains raw syscall instructions (not sites there)
+	for w := 0; w < 12; w++ {
+		for _, l := range loads {
+			jobs = append(jobs, []int{shFunc, l, shCallW0 + w}, []int{shFunc, l, shNeutral, shCallW0 + w, shLoadAX, shRaw}, []int{shFunc, shLoadAX, shRaw, l, shCallW0 + w, shFunc, shLoadStack, shCall})
+			jobs = append(jobs, []int{shFuncW0 + w, l, shRaw, shFunc, shLoadAX, shRaw}, []int{shFunc, shLoadBP, shRaw, shFuncW0 + w, l, shRaw, shLoadStack, shCallW0 + (w+1)%12})
 		}
 	}
 	// size sweep: a function whose number load and site are n neutral instructions apart, for every n up to the bound (the text
